@@ -2,6 +2,7 @@
     PARTIAL: the theorems are about the accounting models of the two joins; real time and real goroutine
     liveness are observed by the correspondence harness. *)
 From GV Require Import Base.Prelude Model.Join Proofs.JoinProofs Model.SseLock Proofs.SseLockProofs.
+From GV Require Import Model.MpLock Proofs.MpLockInv Proofs.MpLockProofs.
 Open Scope nat_scope.
 
 Theorem C05_list_join_terminates : forall n limit tr s,
@@ -61,3 +62,22 @@ Theorem C05_sse_missing_unlock_refuted :
   end.
 Proof. exact no_unlock_deadlock_witness. Qed.
 Print Assumptions C05_sse_missing_unlock_refuted.
+
+(** ** multipart/mixed: neither the handler nor the ticker goroutine is ever stuck (Model.MpLock, every interleaving):
+    until the handler has returned it or the ticker can step; a ticker inside a flush can continue unless the handler
+    holds the mutex, and then the handler can; a ticker between flushes can see the signal as soon as it is sent - so
+    the handler returns and the ticker goroutine ends *)
+Theorem C05_multipart_goroutines_never_stuck : forall rs tr s,
+  mprun true (mpinit rs) tr = Some s ->
+  (returned s = false -> mpstep true s MLHandler <> None \/ mpstep true s MLTicker <> None) /\
+  (m_k s = MKFlush -> mpstep true s MLTicker <> None \/ mpstep true s MLHandler <> None) /\
+  (m_k s = MKSelect -> m_done s = true -> mpstep true s MLSeeDone <> None).
+Proof. exact mp_progress_lemma. Qed.
+Print Assumptions C05_multipart_goroutines_never_stuck.
+
+Example C05_multipart_nonvacuous :
+  exists s, mprun true (mpinit [1; 2; 3]%nat)
+              [MLHandler; MLTick; MLTicker; MLTicker; MLTicker; MLTicker; MLTicker; MLTicker; MLTicker; MLHandler; MLHandler; MLHandler;
+               MLHandler; MLHandler; MLHandler; MLHandler; MLHandler; MLHandler; MLHandler; MLHandler; MLHandler; MLTick; MLTicker; MLTicker; MLTicker; MLSeeDone] = Some s /\
+            returned s = true /\ m_k s = MKEnd /\ m_out s = [(MK, [1]); (MH, [2; 3])]%nat.
+Proof. exact mp_sample_runs. Qed.
